@@ -58,11 +58,15 @@ theorem source_outlives_replacement [DecidableEq α] [DecidableEq γ] (c : Codec
     simp [recording, hcb, hch, map_dec_enc c hc g.cur]
 
 /-- ...and every file under a final name is absent or the COMPLETE image of some version of the recording (possibly a
-stale one, never a torn one); `x.bin`, when present, has the current content. -/
+stale one, never a torn one); `x.bin`, when present, has the current content.  For `x.cbin`, `x.bin`, `scratch/x.bin`
+this holds for every fault point, including a failing rename / move; that `x.ch` describes `x.cbin` needs that no
+rename of `compress_file` failed (`renameOk`): mtscomp writes `x.ch` under its final name before the rename, see
+`rename_failure_next_to_stale_cbin_counterexample`. -/
 theorem final_names_complete_after_rewrites [DecidableEq α] [DecidableEq γ] (c : Codec α γ) (hc : c.Lossless)
     (b : List α) (s0 : Fs α γ) (h0 : Published c b s0) (evs : List (Event α)) (hev : ∀ e ∈ evs, e.inScope) :
     let g := runE c { fs := s0, versions := [b], cur := b } evs
-    (g.fs.cbin = none ∨ ∃ v ∈ g.versions, g.fs.cbin = some (v.map c.enc) ∧ g.fs.ch = some (v.map c.enc)) ∧
+    (g.fs.cbin = none ∨ ∃ v ∈ g.versions, g.fs.cbin = some (v.map c.enc) ∧
+      ((∀ e ∈ evs, e.renameOk) → g.fs.ch = some (v.map c.enc))) ∧
     (g.fs.bin = none ∨ g.fs.bin = some g.cur) ∧
     (g.fs.sbin = none ∨ ∃ v ∈ g.versions, g.fs.sbin = some v) := by
   intro g
@@ -70,30 +74,46 @@ theorem final_names_complete_after_rewrites [DecidableEq α] [DecidableEq γ] (c
   refine ⟨?_, h.bin, h.sbin⟩
   rcases h.cbin with hn | ⟨v, hv, hs⟩
   · exact Or.inl hn
-  · exact Or.inr ⟨v, hv, hs, by have := h.hdr (by simp [hs]); rw [this, hs]⟩
+  · refine Or.inr ⟨v, hv, hs, fun hro => ?_⟩
+    have h0' : HdrOk s0 := by
+      intro cs hcs
+      have := h0.hdr (by simp [hcs])
+      rw [this, hcs]
+    exact hdrOk_runE c hc evs _ h0' hro _ hs
+
+/-- Why `renameOk` is needed for the header: compress (keeping the original), rewrite `x.bin`, compress again with the
+rename failing: the stale `x.cbin` is still there, complete, but `x.ch` now describes the new `x.cbin_tmp`.  The source
+is intact and the current content is held by `x.bin`; the OLD compressed copy has lost its header. -/
+theorem rename_failure_next_to_stale_cbin_counterexample :
+    let c : Codec Nat Nat := ⟨(· + 10), (· - 10)⟩
+    let g := runE c { fs := initBin [1, 2], versions := [[1, 2]], cur := [1, 2] }
+      [.call (.compress .bin true none false), .rewrite [7, 8], .call (.compress .bin false none true)]
+    g.fs.bin = some [7, 8] ∧ g.fs.cbin = some [11, 12] ∧ g.fs.ch = some [17, 18] ∧ g.fs.cbinTmp = some [17, 18] := by
+  decide
 
 /-- Whatever is already in the directory — in particular a complete but STALE `x.cbin`/`x.ch` of an earlier content of
 `x.bin`, or a left-over `x.cbin_tmp` — a `compress_file` that returns normally has published the compressed image of
 the CURRENT `x.bin` (content `l` at the time of the call): `x.cbin` and `x.ch` are those of `l` and decode to `l`. -/
 theorem compress_publishes_current_content [DecidableEq α] [DecidableEq γ] (c : Codec α γ) (hc : c.Lossless)
-    (s : Fs α γ) (fb : DataName) (keep : Bool) (fault : Option Nat)
-    (hok : (compressFile c s fb keep fault).2.2 = .ok) :
-    ∃ l, s.bin = some l ∧ (compressFile c s fb keep fault).1.cbin = some (l.map c.enc) ∧
-      (compressFile c s fb keep fault).1.ch = some (l.map c.enc) ∧
-      recording c (compressFile c s fb keep fault).1 .cbin = some l ∧
-      (compressFile c s fb keep fault).1.cbinTmp = none := by
-  have hcases := compressFile_cases c hc s fb keep fault
+    (s : Fs α γ) (fb : DataName) (keep : Bool) (fault : Option Nat) (rf : Bool)
+    (hok : (compressFile c s fb keep fault rf).2.2 = .ok) :
+    ∃ l, s.bin = some l ∧ (compressFile c s fb keep fault rf).1.cbin = some (l.map c.enc) ∧
+      (compressFile c s fb keep fault rf).1.ch = some (l.map c.enc) ∧
+      recording c (compressFile c s fb keep fault rf).1 .cbin = some l ∧
+      (compressFile c s fb keep fault rf).1.cbinTmp = none := by
+  have hcases := compressFile_cases c hc s fb keep fault rf
   simp only at hcases
-  rcases hcases with ⟨hr, _⟩ | ⟨l, j, _, _, _, _, _, hr⟩ | ⟨l, _, hl, _, hr⟩
+  rcases hcases with ⟨hr, _⟩ | ⟨l, j, _, _, _, _, _, hr⟩ | ⟨l, _, hl, _, _, hr⟩ | ⟨l, _, _, _, _, hr⟩
   · rw [hr] at hok; simp at hok
   · rw [hr] at hok; simp at hok
   · exact ⟨l, hl, by simp [hr], by simp [hr], by simp [hr, recording, map_dec_enc c hc], by simp [hr]⟩
+  · rw [hr] at hok; simp at hok
 
 /-- Non-vacuity of the histories with rewrites: compress (keeping the original), rewrite `x.bin`, compress in place
 again: the stale `x.cbin` is replaced by the image of the new content before the new `x.bin` is removed. -/
 example :
     let c : Codec Nat Nat := ⟨(· + 10), (· - 10)⟩
-    let evs : List (Event Nat) := [.call (.compress .bin true none), .rewrite [7, 8, 9], .call (.compress .bin false none)]
+    let evs : List (Event Nat) := [.call (.compress .bin true none false), .rewrite [7, 8, 9], .call (.compress .bin false none false)]
     let g0 : Hist Nat Nat := { fs := initBin [1, 2, 3], versions := [[1, 2, 3]], cur := [1, 2, 3] }
     (∀ e ∈ evs, e.inScope) ∧
     (runE c g0 (evs.take 2)).fs.cbin = some [11, 12, 13] ∧ (runE c g0 (evs.take 2)).fs.bin = some [7, 8, 9] ∧
@@ -108,45 +128,53 @@ theorem clean_directories_published (c : Codec α γ) (b : List α) :
     Published c b (initBin b : Fs α γ) ∧ Published c b (initCbin c b) :=
   ⟨published_initBin c b, published_initCbin c b⟩
 
-/-- `x.ch` describes `x.cbin` after EVERY sequence of calls, including faults inside the plain
-`decompress_file` (so the model's `corruptHeader` branch is unreachable). -/
+/-- `x.ch` describes `x.cbin` after EVERY sequence of calls with chunk faults anywhere, including inside the plain
+`decompress_file`, and with failing moves of `decompress_to_scratch` — as long as no rename of `compress_file` fails
+(then the model's `corruptHeader` branch is unreachable). -/
 theorem hdr_consistent [DecidableEq α] [DecidableEq γ] (c : Codec α γ) (hc : c.Lossless)
-    (s0 : Fs α γ) (h0 : ∀ cs, s0.cbin = some cs → s0.ch = some cs) (ops : List Op) :
+    (s0 : Fs α γ) (h0 : ∀ cs, s0.cbin = some cs → s0.ch = some cs) (ops : List Op) (hro : ∀ o ∈ ops, o.renameOk) :
     ∀ cs, (run c s0 ops).cbin = some cs → (run c s0 ops).ch = some cs :=
-  hdrOk_run c hc ops s0 h0
+  hdrOk_run c hc ops s0 h0 hro
 
 /-! ## Atomic publication (step theorems: ANY directory, any reader, any fault) -/
 
-/-- When `compress_file` fails — refused, or interrupted at any chunk — nothing but `x.cbin_tmp` differs:
-the source `x.bin` is untouched and no `x.cbin` / `x.ch` was created or altered. -/
+/-- When `compress_file` fails — refused, interrupted at any chunk, or at the very rename that publishes `x.cbin` —
+the source `x.bin` is untouched (for both values of `keep_original`), no `x.cbin` was created or altered, the reader
+still points at the source, and nothing but `x.cbin_tmp` differs; except that after a failing rename `x.ch` (written
+by mtscomp under its final name before the rename) is the header of the complete `x.cbin_tmp`. -/
 theorem compress_failure_touches_only_tmp [DecidableEq α] (c : Codec α γ) (hc : c.Lossless) (s : Fs α γ)
-    (fb : DataName) (keep : Bool) (fault : Option Nat) (e : Err)
-    (h : (compressFile c s fb keep fault).2.2 = .err e) :
-    let s' := (compressFile c s fb keep fault).1
-    s'.bin = s.bin ∧ s'.cbin = s.cbin ∧ s'.ch = s.ch ∧ s'.binTemp = s.binTemp ∧ s'.sbin = s.sbin ∧
-    s'.sbinTemp = s.sbinTemp ∧ s'.smeta = s.smeta ∧ (compressFile c s fb keep fault).2.1 = fb := by
-  have hcases := compressFile_cases c hc s fb keep fault
+    (fb : DataName) (keep : Bool) (fault : Option Nat) (rf : Bool) (e : Err)
+    (h : (compressFile c s fb keep fault rf).2.2 = .err e) :
+    let s' := (compressFile c s fb keep fault rf).1
+    s'.bin = s.bin ∧ s'.cbin = s.cbin ∧ (e ≠ .osError → s'.ch = s.ch) ∧ (e = .osError → s'.ch = s'.cbinTmp) ∧
+    s'.binTemp = s.binTemp ∧ s'.sbin = s.sbin ∧
+    s'.sbinTemp = s.sbinTemp ∧ s'.smeta = s.smeta ∧ (compressFile c s fb keep fault rf).2.1 = fb := by
+  have hcases := compressFile_cases c hc s fb keep fault rf
   simp only at hcases
-  rcases hcases with ⟨hr, _⟩ | ⟨l, j, _, _, _, _, _, hr⟩ | ⟨l, _, _, _, hr⟩
-  · simp [hr]
-  · simp [hr]
+  rcases hcases with ⟨hr, _⟩ | ⟨l, j, _, _, _, _, _, hr⟩ | ⟨l, _, _, _, _, hr⟩ | ⟨l, _, _, _, _, hr⟩
+  · rw [hr] at h ⊢; simp at h; simp [← h]
+  · rw [hr] at h ⊢; simp at h; simp [← h]
   · rw [hr] at h; simp at h
+  · rw [hr] at h ⊢; simp at h; simp [← h]
 
-/-- When `decompress_to_scratch` fails, only the `.bin_temp` file of the target directory (and the copied
-`scratch/x.meta`) differ: source `x.cbin`/`x.ch` untouched, no `x.bin` / `scratch/x.bin` created or altered. -/
+/-- When `decompress_to_scratch` fails — refused, interrupted at any chunk, or at the very move that publishes the
+decompressed file — only the `.bin_temp` file of the target directory (and the copied `scratch/x.meta`) differ: source
+`x.cbin`/`x.ch` untouched, no `x.bin` / `scratch/x.bin` created or altered. -/
 theorem toScratch_failure_touches_only_temp [DecidableEq γ] (c : Codec α γ) (s : Fs α γ)
-    (fb : DataName) (scratch : Bool) (fault : Option Nat) (e : Err)
-    (h : (toScratch c s fb scratch fault).2 = .err e) :
-    let s' := (toScratch c s fb scratch fault).1
+    (fb : DataName) (scratch : Bool) (fault : Option Nat) (mf : Bool) (e : Err)
+    (h : (toScratch c s fb scratch fault mf).2 = .err e) :
+    let s' := (toScratch c s fb scratch fault mf).1
     s'.bin = s.bin ∧ s'.cbin = s.cbin ∧ s'.ch = s.ch ∧ s'.cbinTmp = s.cbinTmp ∧ s'.sbin = s.sbin ∧
     (scratch = true → s'.binTemp = s.binTemp) ∧ (scratch = false → s'.sbinTemp = s.sbinTemp ∧ s'.smeta = s.smeta) := by
-  have hcases := toScratch_cases c s fb scratch fault
+  have hcases := toScratch_cases c s fb scratch fault mf
   simp only at hcases
-  rcases hcases with ⟨hr, _⟩ | ⟨e', _, hr, _⟩ | ⟨cs, j, _, _, _, _, _, _, hr⟩ | ⟨cs, _, _, _, _, hr⟩
+  rcases hcases with ⟨hr, _⟩ | ⟨e', _, hr, _⟩ | ⟨cs, j, _, _, _, _, _, _, hr⟩ | ⟨cs, _, _, _, _, _, hr⟩ |
+    ⟨cs, _, _, _, _, _, hr⟩
   · rw [hr] at h; simp at h
   · rw [hr]; cases scratch <;> simp
   · rw [hr]; cases scratch <;> simp
   · rw [hr] at h; simp at h
+  · rw [hr]; cases scratch <;> simp
 
 /-- A failing `decompress_file` (also the plain one) leaves its source `x.cbin` / `x.ch` untouched. -/
 theorem decompress_failure_keeps_source [DecidableEq γ] (c : Codec α γ) (s : Fs α γ) (fb : DataName)
@@ -162,16 +190,17 @@ theorem decompress_failure_keeps_source [DecidableEq γ] (c : Codec α γ) (s : 
   · rw [hr] at h; cases keep <;> simp at h
 
 /-- In-place compression (`keep_original=False`): if the call removed the source `x.bin` (content `l`), then
-it succeeded and `x.cbin` is the complete compressed image of `l`, described by `x.ch`, and decodes to `l`. -/
+it succeeded and `x.cbin` is the complete compressed image of `l`, described by `x.ch`, and decodes to `l` — for every
+fault point, including a failure of the rename itself (the code renames first and unlinks afterwards). -/
 theorem inplace_compress_removes_source_only_after_complete [DecidableEq α] [DecidableEq γ]
-    (c : Codec α γ) (hc : c.Lossless) (s : Fs α γ) (fb : DataName) (keep : Bool) (fault : Option Nat)
-    (l : List α) (hsrc : s.bin = some l) (hgone : (compressFile c s fb keep fault).1.bin = none) :
-    let r := compressFile c s fb keep fault
+    (c : Codec α γ) (hc : c.Lossless) (s : Fs α γ) (fb : DataName) (keep : Bool) (fault : Option Nat) (rf : Bool)
+    (l : List α) (hsrc : s.bin = some l) (hgone : (compressFile c s fb keep fault rf).1.bin = none) :
+    let r := compressFile c s fb keep fault rf
     r.2.2 = .ok ∧ keep = false ∧ r.1.cbin = some (l.map c.enc) ∧ r.1.ch = some (l.map c.enc) ∧
     recording c r.1 .cbin = some l ∧ r.2.1 = .cbin := by
-  have hcases := compressFile_cases c hc s fb keep fault
+  have hcases := compressFile_cases c hc s fb keep fault rf
   simp only at hcases
-  rcases hcases with ⟨hr, _⟩ | ⟨l', j, _, _, _, _, _, hr⟩ | ⟨l', _, hl', _, hr⟩
+  rcases hcases with ⟨hr, _⟩ | ⟨l', j, _, _, _, _, _, hr⟩ | ⟨l', _, hl', _, _, hr⟩ | ⟨l', _, _, _, _, hr⟩
   · rw [hr] at hgone; simp [hsrc] at hgone
   · rw [hr] at hgone; simp [hsrc] at hgone
   · have : l' = l := by simp_all
@@ -179,6 +208,7 @@ theorem inplace_compress_removes_source_only_after_complete [DecidableEq α] [De
     cases keep
     · simp [hr, recording, map_dec_enc c hc]
     · rw [hr] at hgone; simp at hgone
+  · rw [hr] at hgone; simp [hsrc] at hgone
 
 /-- In-place decompression (`keep_original=False`): if the call removed the source `x.cbin` (stream `cs`), then
 it succeeded and `x.bin` is the complete decoded recording. -/
@@ -208,7 +238,7 @@ for both values of `keep_original` on either side; when the original was kept th
 theorem roundtrip [DecidableEq α] [DecidableEq γ] (c : Codec α γ) (hc : c.Lossless) (s : Fs α γ)
     (b : List α) (hb : s.bin = some b) (hne : b ≠ []) (keep₁ keep₂ overwrite : Bool)
     (hov : keep₁ = true → overwrite = true) :
-    let s₁ := (step c s (.compress .bin keep₁ none))
+    let s₁ := (step c s (.compress .bin keep₁ none false))
     let s₂ := (step c s₁.1 (.decompress .cbin keep₂ overwrite none))
     s₁.2.2 = .ok ∧ s₂.2.2 = .ok ∧ s₂.1.bin = some b ∧
     s₁.1.cbin = some (b.map c.enc) ∧ s₁.1.ch = some (b.map c.enc) ∧
@@ -369,27 +399,30 @@ first chunk is left.  Each call honours its own contract (its source was the tor
 data, which is why `Op.inScope` excludes faults of the non-atomic call. -/
 theorem torn_bin_recompressed_counterexample :
     let c : Codec Nat Nat := ⟨id, id⟩
-    let s := run c (initCbin c [1, 2, 3]) [.decompress .cbin true false (some 1), .compress .bin false none]
+    let s := run c (initCbin c [1, 2, 3]) [.decompress .cbin true false (some 1), .compress .bin false none false]
     s.bin = none ∧ s.cbin = some [1] := by
   decide
 
 /-! ## Non-vacuity -/
 
-/-- A three-chunk recording, in-place compression interrupted at chunk 2, then completed, then
-decompressed to scratch with a fault, then completely. -/
+/-- A three-chunk recording: in-place compression interrupted at chunk 2, then failing at the rename (source and reader
+untouched, `x.cbin_tmp` complete), then completed; decompression to scratch interrupted at chunk 1, then failing at the
+move (`scratch/x.bin_temp` complete, nothing published), then completed. -/
 example :
     let c : Codec Nat Nat := ⟨(· + 10), (· - 10)⟩
-    let ops : List Op := [.compress .bin false (some 2), .compress .bin false none,
-                          .toScratch .cbin true (some 1), .toScratch .cbin true none]
+    let ops : List Op := [.compress .bin false (some 2) false, .compress .bin false none true, .compress .bin false none false,
+                          .toScratch .cbin true (some 1) false, .toScratch .cbin true none true, .toScratch .cbin true none false]
+    let st (n : Nat) := run c (initBin [1, 2, 3]) (ops.take n)
     c.Lossless ∧ (∀ o ∈ ops, o.inScope) ∧
-    (run c (initBin [1, 2, 3]) (ops.take 1)).cbinTmp = some [11, 12] ∧
-    (run c (initBin [1, 2, 3]) (ops.take 1)).cbin = none ∧
-    (run c (initBin [1, 2, 3]) (ops.take 2)).bin = none ∧
-    (run c (initBin [1, 2, 3]) (ops.take 2)).cbin = some [11, 12, 13] ∧
-    (run c (initBin [1, 2, 3]) (ops.take 3)).sbinTemp = some [1] ∧
-    (run c (initBin [1, 2, 3]) (ops.take 3)).sbin = none ∧
-    (run c (initBin [1, 2, 3]) ops).sbin = some [1, 2, 3] := by
-  refine ⟨fun a => by simp, by decide, by decide, by decide, by decide, by decide, by decide, by decide, by decide⟩
+    (st 1).cbinTmp = some [11, 12] ∧ (st 1).cbin = none ∧
+    (st 2).bin = some [1, 2, 3] ∧ (st 2).cbin = none ∧ (st 2).cbinTmp = some [11, 12, 13] ∧
+    (step c (st 1) (.compress .bin false none true)).2 = (.bin, .err .osError) ∧
+    (st 3).bin = none ∧ (st 3).cbin = some [11, 12, 13] ∧
+    (st 4).sbinTemp = some [1] ∧ (st 4).sbin = none ∧
+    (st 5).sbinTemp = some [1, 2, 3] ∧ (st 5).sbin = none ∧
+    (st 6).sbin = some [1, 2, 3] := by
+  refine ⟨fun a => by simp, by decide, by decide, by decide, by decide, by decide, by decide, by decide, by decide,
+    by decide, by decide, by decide, by decide, by decide, by decide⟩
 
 example : recordingVia (⟨id, id⟩ : Codec Nat Nat) (initCbin ⟨id, id⟩ [1, 2]) .metaFile = some [1, 2] := by decide
 
